@@ -298,12 +298,12 @@ theorem slow_simplex_direct_start_partial {tol : K} (ht : 0 < tol) {lm : LinMode
 `Rooc/Proofs/ComposeSem.lean` relates the two readings of a linear model: by NAME (`Sem.linFeasible`,
 `Sem.linObjective`: C01/C02/C03) and POSITIONAL (`StdSem.LinFeasible`, `StdSem.obj`: C13).  They coincide along
 `x = lm.vars.map ρ` when the variable names are distinct, the domain declares exactly them (`ComposeSem.DomVars`) and
-`NonNegativeReal(lo, _)` has `0 ≤ lo` (`LinP.NNOK`; otherwise the standardizer's `x ≥ 0` and the by-name domain
+`NonNegativeReal(lo, _)` has `0 ≤ lo` (`ComposeSem.NNOK`; otherwise the standardizer's `x ≥ 0` and the by-name domain
 disagree — DESIGN.md appendix A).  `ComposeSem.pointOf vars x` is the assignment `varsᵢ ↦ xᵢ`. -/
 
 /-- **`Finished` at exact arithmetic ⇒ `Compose.LinOptimal`**, with `optimal_value` as the linear objective
 (offset included) at the returned point. -/
-theorem slow_simplex_linOptimal_exact {lm : LinModel (Ext K)} (hW : WF lm) (hnn : ∀ d ∈ lm.domain, LinP.NNOK d.ty)
+theorem slow_simplex_linOptimal_exact {lm : LinModel (Ext K)} (hW : WF lm) (hnn : ∀ d ∈ lm.domain, ComposeSem.NNOK d.ty)
     (hdv : ComposeSem.DomVars lm) (hnd : lm.vars.Nodup) {s : StdModel (Ext K)} (hs : standardize lm = .ok s)
     {T : Tab K} (hT : CanonicalFor T (stdK s)) (stallExtra limit : Nat) (prefer : List Nat)
     (hfin : (solve (0:K) stallExtra limit prefer T).result = .ok ()) :
@@ -315,14 +315,14 @@ theorem slow_simplex_linOptimal_exact {lm : LinModel (Ext K)} (hW : WF lm) (hnn 
   ComposeSem.simplex_linOptimal hW hnn hdv hnd hs hT stallExtra limit prefer hfin
 
 /-- **`Unbounded` at exact arithmetic ⇒ `Compose.LinUnbounded`.** -/
-theorem slow_simplex_linUnbounded_exact {lm : LinModel (Ext K)} (hW : WF lm) (hnn : ∀ d ∈ lm.domain, LinP.NNOK d.ty)
+theorem slow_simplex_linUnbounded_exact {lm : LinModel (Ext K)} (hW : WF lm) (hnn : ∀ d ∈ lm.domain, ComposeSem.NNOK d.ty)
     (hdv : ComposeSem.DomVars lm) (hnd : lm.vars.Nodup) {s : StdModel (Ext K)} (hs : standardize lm = .ok s)
     {T : Tab K} (hT : CanonicalFor T (stdK s)) (stallExtra limit : Nat) (prefer : List Nat)
     (hunb : (solve (0:K) stallExtra limit prefer T).result = .error .unbounded) : Compose.LinUnbounded lm :=
   ComposeSem.simplex_linUnbounded hW hnn hdv hnd hs hT stallExtra limit prefer hunb
 
 /-- **phase-1 optimum below zero at exact arithmetic ⇒ `Compose.LinInfeasible`.** -/
-theorem slow_simplex_linInfeasible_exact {lm : LinModel (Ext K)} (hW : WF lm) (hnn : ∀ d ∈ lm.domain, LinP.NNOK d.ty)
+theorem slow_simplex_linInfeasible_exact {lm : LinModel (Ext K)} (hW : WF lm) (hnn : ∀ d ∈ lm.domain, ComposeSem.NNOK d.ty)
     (hdv : ComposeSem.DomVars lm) {s : StdModel (Ext K)} (hs : standardize lm = .ok s)
     (stallExtra limit : Nat) (prefer : List Nat)
     (hok : (solve (0:K) stallExtra limit prefer (phase1Tab (stdK s))).result = .ok ())
@@ -330,7 +330,7 @@ theorem slow_simplex_linInfeasible_exact {lm : LinModel (Ext K)} (hW : WF lm) (h
   ComposeSem.simplex_linInfeasible hW hnn hdv hs stallExtra limit prefer hok hneg
 
 /-- the adapter itself: by-name feasibility / objective = positional feasibility / objective. -/
-theorem linFeasible_iff_positional {lm : LinModel (Ext K)} (hW : WF lm) (hnn : ∀ d ∈ lm.domain, LinP.NNOK d.ty)
+theorem linFeasible_iff_positional {lm : LinModel (Ext K)} (hW : WF lm) (hnn : ∀ d ∈ lm.domain, ComposeSem.NNOK d.ty)
     (hdv : ComposeSem.DomVars lm) (ρ : String → K) :
     (Sem.linFeasible lm ρ = true ↔ LinFeasible lm (lm.vars.map ρ)) ∧
     Sem.linObjective lm ρ = some (obj lm (lm.vars.map ρ)) :=
